@@ -152,6 +152,10 @@ func (r *ProcRunner) Kill(ctx context.Context) error {
 	if r.KillHonoursCtx {
 		// a runner that treats its context as runners for remote sandboxes do: a cancelled or expired
 		// context aborts the kill, and the (optional) grace period is cut short by it
+		if ctx.Err() != nil {
+			r.KillAborted.Add(1)
+			return ctx.Err()
+		}
 		select {
 		case <-ctx.Done():
 			r.KillAborted.Add(1)
